@@ -429,6 +429,10 @@ class Session(object):
         for nid in m.order:
             obj = R[nid]
             k = kind[nid]
+            # a node that no container lists (removed, replaced, never inserted) names no parent
+            if nid != "D" and m.up(nid) is None and obj.parentNode is not None:
+                return fail("detached-node-keeps-parent:%s" % ("clone" if nid in self.clone_roots else opc),
+                            dict(detail, node=nid, got=self.name_of(obj.parentNode)), F)
             if obj.ownerDocument is not doc:
                 return fail("ownerDocument:%s" % opc, dict(detail, node=nid,
                                                             got=self.name_of(obj.ownerDocument)), F)
